@@ -110,6 +110,11 @@ def run(repo, rep, tier):
     L.borrow(repo, rep, "R13.5", "C11", c11._algebra, ("strip", "lstrip"))
     # a fallback spelled data-tal-on-error is an ordinary statement
     L.borrow(repo, rep, "R13.3", "C18", c18._keyed, ("convert-first",))
+    # 'the output after the element is untouched': a matched tal:case that
+    # fails under its own on-error has still settled its switch -- the
+    # marker is written before the body runs (C01 owns the skeleton rules)
+    from . import c01
+    L.borrow(repo, rep, "R13.1", "C01", c01._skeletons, ("cancel-order",))
     from .c01 import content_node_total
     okc, detail = content_node_total(repo)
     rep.check(okc, "R13.3", "chameleon.zpt.program.MacroProgram."
